@@ -28,10 +28,94 @@ let cmd_kernel line =
   Printf.printf "%s %s %s %s %d\n" (s_of_f r.k_dist) (s_of_f r.k_bary.vx) (s_of_f r.k_bary.vy) (s_of_f r.k_bary.vz)
     (nat_to_int r.k_region)
 
-let commands : (string * (string -> unit)) list ref = ref [ ("kernel", cmd_kernel) ]
+(* ---------------------------------------------------------------- C20 grids *)
+let cmd_grid line =
+  let t = Array.of_list (toks line) in
+  let kind = t.(0) in
+  let f i = f_of_s t.(i) in
+  let s = f 1 in
+  let g = grid_dims_f s (((f 2, f 3), f 4)) (((f 5, f 6), f 7)) in
+  let ((nx, ny), nz) = g.d_nb in
+  let ((lx, ly), lz) = g.d_lo in
+  let b = Buffer.create 256 in
+  Buffer.add_string b (Printf.sprintf "D %d %d %d %s %s %s |" (z_to_int nx) (z_to_int ny) (z_to_int nz) (s_of_f lx) (s_of_f ly) (s_of_f lz));
+  let np = int_of_string t.(8) in
+  let pos = ref 9 in
+  let is4 = (kind = "G4") in
+  let st4 = ref (grid_empty_f g) and st3 = ref (grid3_empty_f g) in
+  for i = 0 to np - 1 do
+    let p = ((f !pos, f (!pos+1)), f (!pos+2)) in pos := !pos + 3;
+    let ((ix, iy), iz) = grid_idx3_f g p in
+    Buffer.add_string b (Printf.sprintf " P %d %d %d" (z_to_int ix) (z_to_int iy) (z_to_int iz));
+    if not (grid_in_range_f g ((ix, iy), iz)) then Buffer.add_string b " OOB"
+    else begin
+      let v = grid_flat_f g ((ix, iy), iz) in
+      let found =
+        if is4 then (match grid_place_f g !st4 p (int_to_z i) with
+          | Some st -> st4 := st; List.exists (fun o -> z_to_int o = i) (grid_content_at_f st v)
+          | None -> false)
+        else (match grid3_place_f g !st3 p (int_to_z i) with
+          | Some st -> st3 := st; (match grid3_content_at_f st v with Some o -> z_to_int o = i | None -> false)
+          | None -> false) in
+      Buffer.add_string b (Printf.sprintf " R %d" (if found then 1 else 0))
+    end
+  done;
+  Buffer.add_string b " |";
+  let nq = int_of_string t.(!pos) in incr pos;
+  for _ = 0 to nq - 1 do
+    let p = ((f !pos, f (!pos+1)), f (!pos+2)) in pos := !pos + 3;
+    let ((ix, iy), iz) = grid_idx3_f g p in
+    Buffer.add_string b (Printf.sprintf " N %d %d %d" (z_to_int ix) (z_to_int iy) (z_to_int iz));
+    if not (grid_in_range_f g ((ix, iy), iz)) then Buffer.add_string b " OOB ;"
+    else begin
+      let r = if is4 then grid_nbh_f g !st4 p else grid3_nbh_f g !st3 p in
+      List.iter (fun o -> Buffer.add_string b (Printf.sprintf " %d" (z_to_int o))) r;
+      Buffer.add_string b " ;"
+    end
+  done;
+  Buffer.add_string b " | C";
+  let c = if is4 then grid_content_f g !st4 else grid3_content_f g !st3 in
+  List.iter (fun o -> Buffer.add_string b (Printf.sprintf " %d" (z_to_int o))) c;
+  print_endline (Buffer.contents b)
+
+(* ---------------------------------------------------------------- C03 integrator *)
+let integ_cfg = ref (1, false)
+let cmd_integrate line =
+  let t = Array.of_list (toks line) in
+  let pos = ref 0 in
+  let next () = let s = t.(!pos) in incr pos; s in
+  let nf () = f_of_s (next ()) and ni () = int_of_string (next ()) in
+  let dt = nf () in let damping = nf () in let nsteps = ni () in
+  let nc = ni () in
+  let ci = Array.init nc (fun _ -> let st = ni () in let local = ni () in let dens = nf () in let vol = nf () in (st, local, dens, vol)) in
+  let nn = ni () in
+  let v3 () = let x = nf () in let y = nf () in let z = nf () in { vx = x; vy = y; vz = z } in
+  let nodes = Array.init nn (fun _ ->
+    let used = ni () in let cell = ni () in let p = v3 () in let m = v3 () in let f = v3 () in
+    let cpl = ni () in let g = ni () in let grp = List.init g (fun _ -> ni ()) in
+    (used, cell, p, m, f, cpl, grp)) in
+  let live = Array.make nc 0 in
+  Array.iter (fun (used, cell, _, _, _, _, _) -> if used <> 0 then live.(cell) <- live.(cell) + 1) nodes;
+  let cells = Array.to_list (Array.mapi (fun c (st, local, dens, vol) ->
+    { c_static = (st <> 0); c_local = int_to_nat local; c_mass = integ_node_mass_f dens vol (int_to_z live.(c)) }) ci) in
+  let nl = Array.to_list (Array.map (fun (used, cell, p, m, f, cpl, grp) ->
+    { n_used = (used <> 0); n_cell = int_to_nat cell; n_pos = p; n_mom = m; n_force = f;
+      n_cpl = (if cpl >= 0 then Some (int_to_nat cpl) else None); n_cpls = List.map int_to_nat grp }) nodes) in
+  let (contact, over) = !integ_cfg in
+  let s0 = { s_cells = cells; s_nodes = nl; s_time = Float64.of_float 0.0 } in
+  let s1 = integ_steps_f (int_to_nat nsteps) (int_to_nat contact) over dt damping s0 in
+  let b = Buffer.create 1024 in
+  Buffer.add_string b (s_of_f s1.s_time); Buffer.add_string b " |";
+  List.iter (fun n ->
+    List.iter (fun v -> Buffer.add_string b (Printf.sprintf " %s %s %s" (s_of_f v.vx) (s_of_f v.vy) (s_of_f v.vz)))
+      [n.n_pos; n.n_mom; n.n_force]) s1.s_nodes;
+  print_endline (Buffer.contents b)
+
+let commands : (string * (string -> unit)) list ref = ref [ ("kernel", cmd_kernel); ("grid", cmd_grid); ("integrate", cmd_integrate) ]
 
 let () =
   let cmd = Sys.argv.(1) in
+  if cmd = "integrate" then integ_cfg := (int_of_string Sys.argv.(2), Sys.argv.(3) = "1");
   let f = try List.assoc cmd !commands with Not_found -> (prerr_endline ("unknown command " ^ cmd); exit 2) in
   (try
     while true do
